@@ -33,7 +33,7 @@ ASSUMPTIONS = [
 
 @st.composite
 def unitary_case(draw, max_n=8):
-    n = draw(st.integers(2, max_n))
+    n = draw(st.one_of(st.integers(2, max_n), st.sampled_from([1, 1, 2])))
     kinds = [k for k in UNITARY_KINDS]
     k1 = draw(st.sampled_from(kinds))
     spec = [[k1, draw(st.integers(0, 10 ** 6))]]
